@@ -51,7 +51,7 @@ class CaseCtx:
         if h == 1:
             ops.append({"op": "set_root", "path": "/vws/R"})
         elif h == 2:
-            ops.append({"op": "set_root", "path": "/vws/R/a"})
+            ops.append({"op": "set_root", "path": "/vws/R/sa"})
         for p in case_list(self.case.get("plugins")):
             ops.append({"op": "mark_plugin", "path": UNI.paths[p]})
         for slot in self.case["order"]:
